@@ -85,7 +85,7 @@ def result_points(case, r):
 
 # ----------------------------------------------------------------------------- generation
 def gen_cases(rng, tier, per_fn=None):
-    n = per_fn or (60 if tier == "quick" else 900)
+    n = per_fn or (60 if tier == "quick" else 600)
     cases = []
     for fn in pl.FUNCS:
         for _ in range(n):
